@@ -79,7 +79,7 @@ def refName : ExcRef → String
 
 def wrapperAll : List Wrapper :=
   Method.all.map Wrapper.outer ++
-  [.knownArgs, .pathOwn, .links, .getDefaults, .defaultPaths, .validate, .required, .lcpm, .checkValueKey, .envList,
+  [.knownArgs, .pathOwn, .pathRead, .dataclassBranch, .links, .getDefaults, .defaultPaths, .validate, .required, .lcpm, .checkValueKey, .envList,
    .checkType, .checkTypeLoad, .vocPath, .anyLoad, .leafLoad, .annotated, .registered, .enumLookup, .typeImport, .floatConv,
    .unionTry, .subclassBranch, .callableBranch, .anyClasses, .dictKwargsLoad, .discard, .applyConfigPath,
    .applyConfigStr, .configLoad, .helpImport, .yamlLoad]
@@ -163,7 +163,7 @@ def answer (j : Json) : Json :=
       ("loaderExc", Json.mkObj (Mode.all.map (fun m => (modeName m, Json.arr ((T.loaderExc m).map (fun c => Json.str (excName c))).toArray)))),
       ("errorExit", match T.error.exitStatus with | some n => (n : Json) | none => Json.null),
       ("errorRaises", match T.error.raisesWhenNoExit with | some c => Json.str (excName c) | none => Json.null),
-      ("subInherited", Json.arr (T.subInherited.map Json.str).toArray), ("printConfigCleanup", Json.str (lastName (reprStr T.printConfigCleanup))), ("plainExit", (T.plainExit : Json)), ("innerExitOnError", Json.bool T.innerExitOnError), ("helpExitOnError", Json.bool T.helpExitOnError),
+      ("subInherited", Json.arr (T.subInherited.map Json.str).toArray), ("printConfigCleanup", Json.str (lastName (reprStr T.printConfigCleanup))), ("plainExit", (T.plainExit : Json)), ("innerExitOnError", Json.bool T.innerExitOnError), ("helpExitOnError", match T.helpExitOnError with | some b => Json.bool b | none => Json.str "inherits"),
       ("regions", (Region.all.length : Json)), ("states", (St.all.length : Json))]
   | "staticLeaves" =>
     let ls := Jap.Gen.ExcFlowRaises.leaves
